@@ -217,6 +217,12 @@ class Scenario:
             inst = v_ite(b_and(m, r.present), r.vals['instance_name'], inst)
         return pres, inst
 
+    def _inst_state(self, i):
+        out = 0
+        for k, r in self.db.t['instances'].rows.items():
+            out = ite(oracle.i_eq(i, k[0]), r.vals['state'].v, out)
+        return out
+
     def _assume(self, c):
         if c is True:
             return
@@ -253,6 +259,10 @@ class Scenario:
         j, a, i = self._job(tag), self._att(tag), self._inst(tag)
         pres, _ = self._attempt_facts(j, a)
         self._assume(b_and(self.scheduler_selects(j), b_not(pres)))   # fresh random attempt id
+        # the scheduler only places jobs on instances it holds as active (schedule_job asserts it); the database row may
+        # meanwhile have been deactivated, but it cannot be pending again
+        st = self._inst_state(i)
+        self._assume(b_not(oracle.i_eq(st, code('pending'))))
         self.begin('schedule_job')
         return self.w.call('schedule_job', [1, V(j), V(a), V(i)])
 
